@@ -344,6 +344,11 @@ class Ctx(object):
         return self.regen_obligations('tools.regen.shape_ast', 'Gen_shape.v', 'Shp_%s.v' % self.prop, 'Shp_diag.v',
                                       'shp_')
 
+    def loops_obligations(self):
+        """Small imperative shape functions as state-monad programs (tools/regen/loops_ast.py) + coq/obl/Lp_<prop>.v"""
+        return self.regen_obligations('tools.regen.loops_ast', 'Gen_loops.v', 'Lp_%s.v' % self.prop,
+                                      'Lp_diag_%s.v' % self.prop, 'lp_')
+
     def regen_obligations(self, module, genfile, oblfile, diagfile, prefix):
         """Regenerate a table from the CURRENT source with a fail-closed AST analysis and re-prove this
         property's obligation file on it.  A failure is recorded as a broken tie whose detail names what
